@@ -240,6 +240,7 @@ impl Machine {
             ["kv", n] => Val::Env(Envelope::new(KnownValue::new(n.parse::<u64>().ok()?))),
             ["assertion", p, o] => Val::Env(Envelope::new_assertion(self.env(p)?, self.env(o)?)),
             ["add", e, x] => res(self.env(e)?.add_assertion_envelope(self.env(x)?)),
+            ["add_many", e, xs] => res(self.env(e)?.add_assertion_envelopes(&self.envs(xs)?)),
             ["remove", e, x] => Val::Env(self.env(e)?.remove_assertion(self.env(x)?)),
             ["replace_assertion", e, x, y] => res(self.env(e)?.replace_assertion(self.env(x)?, self.env(y)?)),
             ["replace_subject", e, s] => Val::Env(self.env(e)?.replace_subject(self.env(s)?)),
